@@ -416,6 +416,58 @@ def check_sly_recovery(ctx):
     ctx.count('sly_recovery_checks', 4)
 
 
+def reentrant_parse_calls(cls):
+    """calls of the driver on the parser object itself from inside its own methods (grammar actions, error callback, helpers)"""
+    out = []
+    for m in [x for x in cls.body if isinstance(x, ast.FunctionDef)]:
+        selfname = m.args.args[0].arg if m.args.args else 'self'
+        for n in ast.walk(m):
+            if isinstance(n, ast.Call) and isinstance(n.func, ast.Attribute) and n.func.attr in ('parse', 'restart') and isinstance(n.func.value, ast.Name) \
+                    and n.func.value.id == selfname:
+                out.append((m, n))
+            if isinstance(n, ast.Call) and isinstance(n.func, ast.Attribute) and n.func.attr == 'parse' and isinstance(n.func.value, ast.Call) \
+                    and dotted(n.func.value.func) == 'super':
+                out.append((m, n))
+    return out
+
+
+def check_no_reentrant_parse(ctx):
+    """sly keeps the state of a parse (token stream, state / symbol stacks, tokens already used) in attributes of the parser object.  A grammar action or error
+    callback that starts another parse on `self` replaces them under the running parse: the outer error callback then drains the wrong stream and panic-mode
+    recovery goes on over the real one - a statement followed by garbage and a second statement is accepted."""
+    from ..grammar import dialect_classes
+    seen = set()
+    n = 0
+    for d in DIALECTS:
+        _, (pmod, pcls) = dialect_classes(ctx.src)[d]
+        todo = [(pmod.replace('.', '/') + '.py', pcls)]
+        while todo:
+            f, cn = todo.pop()
+            if (f, cn) in seen or not ctx.src.exists(f):
+                continue
+            seen.add((f, cn))
+            tree = ctx.src.tree(f)
+            cls = next((x for x in tree.body if isinstance(x, ast.ClassDef) and x.name == cn), None)
+            if cls is None:
+                continue
+            n += 1
+            for b in cls.bases:
+                bn = (dotted(b) or '').split('.')[-1]
+                for st in ast.walk(tree):
+                    if isinstance(st, ast.ImportFrom) and st.module and st.module.startswith('mindsdb_sql') and any((a.asname or a.name) == bn for a in st.names):
+                        todo.append((st.module.replace('.', '/') + '.py', bn))
+                todo.append((f, bn))
+            for m, call in reentrant_parse_calls(cls):
+                ctx.ob('C05.no-reentrant-parse', f'{cn}.{m.name}:{norm(call)[:50]}', False,
+                       f'{cn}.{m.name} runs the driver on the parser object itself (`{norm(call)[:60]}`) while that object is parsing: the token stream and the stacks of the '
+                       f'running parse are replaced, its error callback drains the wrong stream and the recovery accepts what follows the error', file=f, line=call.lineno,
+                       witness='create view v as (select a from t)) ; drop table t')
+    ctx.setcount('parser_classes', n)
+    ctx.ob('C05.no-reentrant-parse', 'all', True, '')
+    demo = ast.parse('class P:\n    def act(self, p):\n        if self.parse(iter(p.raw_query)) is None:\n            raise X()\n    def ok(self, p):\n        return p.parse(1)\n')
+    ctx.need([m.name for m, _ in reentrant_parse_calls(demo.body[0])] == ['act'], 'self-test of the re-entrant parse rule failed')
+
+
 def run(ctx):
     ctx.explanation = (
         'Structural argument + exhaustive table scan. For each of the three parser classes: no production mentions '
@@ -436,6 +488,8 @@ def run(ctx):
     check_parse_sql(ctx)
     check_sly_defaulted(ctx)
     check_sly_recovery(ctx)
+    check_no_reentrant_parse(ctx)
+    ctx.floor('parser_classes', 3)
     ctx.floor('grammars', 3)
     ctx.floor('error_callbacks', 3)
     ctx.floor('accept_checks', 3)
